@@ -70,14 +70,20 @@ def call(F, bi, st, t):
         elif resolved is None and in_crate:
             # generic receiver: every type-compatible in-crate implementation is analysed; foreign ones are assumed well-behaved
             r = BOT
-            in_crate = [fn for fn in in_crate if compatible(F, fn, args)]
+            targs = [(F.export(st, a), ty) for a, ty in args]
+            in_crate = [fn for fn in in_crate if compatible(F, fn, targs)]
             for fn in in_crate:
                 st_copy = st.clone()
                 x = invoke_fn(F, bi, st_copy, t, fn, args)
                 if x is not None:
                     r = E.join(r, x)
             havoc_mut_args(F, st, t, args)
-            ret = ("t", dty)
+            # the receiver is a concrete in-crate type: the (type-filtered) in-crate implementations are the only callees
+            recv = adt_of_av(F, targs[0][0], targs[0][1]) if targs else None
+            if in_crate and recv is not None and recv in P.adts and r != BOT and r[0] != "unk":
+                ret = r
+            else:
+                ret = ("t", dty)
             handled = True
     if not handled:
         m = E.std.get(name)
